@@ -33,6 +33,7 @@ pub struct SweepStats {
     pub refused_but_equal: u64,
     pub limit_hit_at_last_call: u64,
     pub limit_error_without_refusal: u64,
+    pub large_limits: u64,
 }
 
 pub fn set_limit(v: usize) {
@@ -164,7 +165,59 @@ pub fn sweep(
             completed_at = Some(k);
         }
     }
+    // "…to beyond the number of calls the parse needs": limits far beyond N, including values
+    // around the integer-width boundaries, must all reproduce the unlimited result
+    for k in large_limits(n, rng) {
+        let (o, _c, refused) = run_with(&p, k, false);
+        stats.points += 1;
+        stats.large_limits += 1;
+        if refused > 0 || o.core != r_inf.core {
+            return Ok(Some(Violation {
+                class: if o.core.is_limit_error() { "not-monotone" } else { "silent-change" }.into(),
+                detail: format!(
+                    "limit {k} (far beyond the {n} calls the parse needs; it completes under limit {}): returned {} — unlimited result is {}",
+                    n + 1,
+                    o.core.short(),
+                    r_inf.core.short()
+                ),
+                k: Some(k),
+            }));
+        }
+    }
     Ok(None)
+}
+
+/// Limit values far beyond the calls needed: powers of two and their neighbours (offsets chosen
+/// below, at and above the number of calls), and the top of the usize range.
+pub fn large_limits(n: usize, rng: &mut Rng) -> Vec<usize> {
+    let mut v: Vec<usize> = vec![];
+    let offs = [0usize, 1, 2, n / 2 + 1, n.saturating_sub(1).max(1), n, n + 1, 1 + rng.below(n + 2)];
+    for shift in [16u32, 31, 32, 33, 48, 62, 63] {
+        let base = 1usize << shift;
+        for o in offs {
+            v.push(base.wrapping_add(o));
+            v.push(base.wrapping_sub(o.max(1)));
+        }
+        // multiples of the base with a small low part
+        v.push(base.wrapping_mul(3).wrapping_add(1 + rng.below(n + 2)));
+    }
+    for o in offs {
+        v.push(usize::MAX - o);
+        v.push((usize::MAX >> 1).wrapping_add(o));
+        v.push((usize::MAX >> 1) - o);
+        v.push(usize::MAX - (1usize << 32) + o);
+    }
+    v.retain(|k| *k > n + 1);
+    v.sort_unstable();
+    v.dedup();
+    // a seeded dozen per parse job: over the jobs of a run every boundary value is hit many times
+    let mut pick = vec![];
+    for _ in 0..12 {
+        pick.push(v[rng.below(v.len())]);
+    }
+    pick.sort_unstable();
+    pick.dedup();
+    pick
 }
 
 pub fn violation_json(job: &Job, v: &Violation) -> Value {
